@@ -274,6 +274,7 @@ func runC02(c *Ctx) error {
 		res := runSession(circ, gIn, eIn, grand, kind.mk(r.Fork()), kind.mk(r.Fork()),
 			frag, r.Fork(), nil, 60*time.Second)
 		c02Live(c, circ, x, y, kind, r.Fork()) // flush-discipline correspondence (c02live.go)
+		c02Abort(c, r.Fork())                  // error exits, once per run (c02abort.go)
 		xy := append(append([]bool(nil), x...), y...)
 		want := JoinBig(circ, TruthEval(circ, xy))
 		bad := ""
